@@ -85,6 +85,7 @@ type Contract struct {
 	Uses     []string // axiom groups this function's proofs may use
 	TaggedOnly []string // properties for which only explicitly tagged clauses of this function count
 	NoNil    bool     // rte.nil obligations are not generated (stated assumption)
+	NoRte    bool     // no run-time-error obligations at all for this function (only its contract clauses are claimed)
 	Lemma    bool     // ghost client (lemma) function
 }
 
@@ -215,6 +216,8 @@ func (sp *Spec) loadFile(path string, pkg string) error {
 			cur.Props = append(cur.Props, strings.Fields(strings.ReplaceAll(rest, ",", " "))...)
 		case "nonil":
 			cur.NoNil = true
+		case "norte":
+			cur.NoRte = true
 		case "tagged-only":
 			cur.TaggedOnly = append(cur.TaggedOnly, strings.Fields(strings.ReplaceAll(rest, ",", " "))...)
 		case "mode":
